@@ -522,4 +522,61 @@ def rule_origin(ctx) -> RuleResult:
     return res
 
 
-RULES = [rule_cache, rule_rot, rule_origin]
+def rule_parts(ctx) -> RuleResult:
+    import ast
+
+    from ._c17_flow import Flow, key_of
+
+    res = RuleResult(
+        "C17.PARTS",
+        "C17",
+        "part labels derived from the segments follow connectivity: where the getter of Curve.parts compares the end points of two "
+        "segments (vertex indices read from the cells array) it tests whether they are the same vertex (== / !=), never how the two "
+        "indices are ordered — a vertex index is a name, not a position along the curve",
+        floor=0,
+    )
+    p = ctx.p
+    done = set()
+    for K in p.subclasses(p.cls("Curve")):
+        m = K.lookup("parts")
+        if not m or m[1] != "prop" or m[2].getter is None or m[2].getter in done:
+            continue
+        getter = m[2].getter
+        done.add(getter)
+        cm = K.lookup("cells")
+        cells_fields = set()
+        if cm and cm[1] == "prop" and cm[2].getter is not None:
+            csn = cm[2].getter.self_name or "self"
+            for r in ast.walk(cm[2].getter.node):
+                if isinstance(r, ast.Return) and isinstance(r.value, ast.Attribute) and isinstance(r.value.value, ast.Name) and r.value.value.id == csn:
+                    cells_fields.add(r.value.attr)
+        g = ctx.view(getter)
+        sn = g.self_name or "self"
+        fl = Flow(g.node)
+        cells_keys = {f"{sn}.cells"} | {f"{sn}.{f}" for f in cells_fields}
+
+        def reads_segment_end(e):
+            """e (or the expression a local it names was bound to) holds an element / a column of the cells array"""
+            if key_of(e) is not None and fl.nodes_of(e):
+                e = fl.resolve(e)[0]
+            for x in ast.walk(e):
+                if isinstance(x, ast.Subscript):
+                    b = x.value
+                    if key_of(b) is not None and fl.nodes_of(b):
+                        b = fl.resolve(b)[0]
+                    if key_of(b) in cells_keys:
+                        return True
+            return False
+
+        for c in ast.walk(g.node):
+            if isinstance(c, ast.Compare) and len(c.ops) == 1 and fl.nodes_of(c) and reads_segment_end(c.left) and reads_segment_end(c.comparators[0]):
+                ok = isinstance(c.ops[0], (ast.Eq, ast.NotEq))
+                res.inst(f"{getter.qualname}:{c.lineno} end points of two segments compared for identity", nontrivial=True, ok=ok)
+                if not ok:
+                    res.find(getter.cls.name, "parts", "segment end points are compared by order, not by identity", f"{getter.module.relpath}:{c.lineno}",
+                             "a new part is recognised only when the segment starts at a higher vertex index than the previous one ended: parts listed with "
+                             "descending or interleaved vertex indices are merged into one label although they are not connected")
+    return res
+
+
+RULES = [rule_cache, rule_rot, rule_origin, rule_parts]
